@@ -74,6 +74,16 @@ def generate(seed, tier="quick"):
     if sub(seed, "flag0").random() < 0.15:
         prof.special.append("flag0")
     prog = W.gen_program(rng, prof, {"prev": ["none"], "n_sites": (1, 5), "n_tests": (1, 3)})
+    erng = sub(seed, "externals")
+    if driver == "plugin" and erng.random() < 0.6:
+        # outsourced externals (persisted by the real plugin; the read-back loads them from the storage directory)
+        from . import c13
+
+        f = prog["files"][0]
+        for k in range(erng.randint(1, 2)):
+            sid = f"x{k}"
+            f["sites"][sid] = {"op": erng.choice(["eq", "eq", "in"]), "place": "direct", "arg": None, "prev": None}
+            erng.choice(f["tests"])["events"].append({"t": "cmp", "eid": f"ex{k}", "site": sid, "vals": [c13.wrap(erng, c13.ext_value(erng))], "style": erng.choice(["assert", "rec"])})
     mrng = sub(seed, "mutation")
     if mrng.random() < 0.2:
         # the observed object is mutated after the comparison (the read-back compares before it mutates, too)
